@@ -13,6 +13,7 @@ PRE = "From Coq Require Import List String.\nFrom Syc Require Import Async.Strea
 # view = ("text", s) | ("el", tag, [views]) | ("sus", id, [views])      fallback text is "F<id>"
 #      | ("resv", gate, [views])  a Resource created outside every boundary, read here: nothing while loading, the views afterwards;
 #                                 for the boundary that reads it, it is a task (modelled as an async component)
+#      | ("cresv", [views])  a CLIENT resource read here: on the server nothing is fetched, nothing is shown, no task exists
 #      | ("live",)   a dynamic text "alive" that a cleanup callback of its scope turns into "gone" (the render must show "alive")
 #      | ("trans", id, [views])    Transition: in the three SSR modes it must behave as a Suspense boundary (modelled as one)
 #      | ("async", gate, [views])
@@ -23,6 +24,8 @@ def hx(s):
 
 
 def sx(v):
+    if v[0] == "cresv":
+        return "(cresv (%s))" % " ".join(sx(c) for c in v[1])
     if v[0] == "live":
         return "(live)"
     if v[0] == "text":
@@ -42,6 +45,8 @@ def splice(vs):
     for v in vs:
         if v[0] == "dyn":
             out += splice(v[1])
+        elif v[0] == "cresv":
+            pass                      # shows nothing on the server
         elif v[0] in ("text", "live"):
             out.append(v)
         elif v[0] == "el":
@@ -64,7 +69,7 @@ def cq(v):
 
 
 def gates(v):
-    if v[0] in ("text", "live"):
+    if v[0] in ("text", "live", "cresv"):
         return []
     if v[0] == "dyn":
         return [g for c in v[1] for g in gates(c)]
@@ -74,7 +79,7 @@ def gates(v):
 
 
 def boundary_ids(v):
-    if v[0] in ("text", "live"):
+    if v[0] in ("text", "live", "cresv"):
         return []
     if v[0] == "dyn":
         return [b for c in v[1] for b in boundary_ids(c)]
@@ -84,6 +89,8 @@ def boundary_ids(v):
 # ---- reference semantics used by the oracle (the property text, not the model) ----
 def full(v):
     """everything resolved, no fallback"""
+    if v[0] == "cresv":
+        return ""
     if v[0] == "live":
         return "alive"
     if v[0] == "text":
@@ -97,6 +104,8 @@ def full(v):
 
 def shell(v):
     """nothing resolved: boundaries show their fallback"""
+    if v[0] == "cresv":
+        return ""
     if v[0] == "live":
         return "alive"
     if v[0] == "text":
@@ -119,6 +128,7 @@ def shapes():
     R = lambda i, *c: ("trans", i, list(c))
     V = lambda g, *c: ("resv", g, list(c))
     LIVE = ("live",)
+    CV = lambda *c: ("cresv", list(c))
     A = lambda g, *c: ("async", g, list(c))
     D = lambda *c: ("dyn", list(c))
     return [
@@ -161,6 +171,10 @@ def shapes():
         [S(1, A(1, T("a")), LIVE)],
         [S(1, A(1, LIVE, T("b")))],
         [E("div", LIVE, S(1, A(1, T("a"))), S(2, A(2, LIVE)))],
+        # a client resource read under a boundary: no task on the server
+        [S(1, CV(T("never")), T("s"))],
+        [S(1, CV(T("never")), A(1, T("a")))],
+        [E("div", S(1, S(2, CV(T("never"))), A(1, T("a"))))],
         # Transition boundaries (a Suspense around a detached suspense scope): alone, around and inside ordinary boundaries
         [R(1, A(1, T("a")))],
         [R(1, A(1, T("x")), S(2, A(2, T("y"))))],
